@@ -1079,7 +1079,15 @@ class Builtins:
             elif z3.is_int_value(t) or z3.is_string_value(t) or z3.is_rational_value(t):
                 consts.append(str(t))
             elif z3.is_app(t):
-                stack.extend(t.children())
+                for c_ in t.children():
+                    # heap maps (and the values stored in them) are exactly what may differ between two versions
+                    if c_.sort().kind() == z3.Z3_ARRAY_SORT and c_.sort().domain().kind() == z3.Z3_INT_SORT and \
+                            not (z3.is_const(c_) and c_.decl().name().endswith("!") is False and False):
+                        if z3.is_app(c_) and c_.decl().kind() in (z3.Z3_OP_STORE, z3.Z3_OP_UNINTERPRETED, z3.Z3_OP_SELECT):
+                            if c_.decl().kind() == z3.Z3_OP_SELECT:
+                                stack.append(c_)
+                            continue
+                    stack.append(c_)
         ent["skel"] = tuple(sorted(consts))
         return ent["skel"]
 
@@ -1108,19 +1116,28 @@ class Builtins:
             c = z3.Select(arr, kq)
             a = z3.substitute(other["t"], (other["x"], c))
             b = z3.substitute(ent["t"], (ent["x"], c))
-            s = z3.Solver()
-            s.set("timeout", 3000)
-            for p in st.pc:
-                s.add(p)
-            s.add(kq >= 0, kq < n)
-            if src_elem is not None:
-                s2 = st.fork()
-                v = eng.wrap(s2, c, src_elem)
-                eng.assume_wf(s2, v, self._src_map_of(st, arr))
-                for p in s2.pc[len(st.pc):]:
-                    s.add(p)
-            s.add(a != b)
-            if s.check() == z3.unsat:
+            def attempt(full):
+                s = z3.Solver()
+                s.set("timeout", 6000 if full else 3000)
+                for p in st.pc:
+                    if full or not z3.is_quantifier(p):
+                        s.add(p)
+                for e_ in (other, ent):
+                    for p in e_.get("side", []):
+                        s.add(z3.substitute(p, (e_["x"], c)))
+                s.add(kq >= 0, kq < n)
+                if src_elem is not None:
+                    s2 = st.fork()
+                    v = eng.wrap(s2, c, src_elem)
+                    eng.assume_wf(s2, v, self._src_map_of(st, arr))
+                    for p in s2.pc[len(st.pc):]:
+                        s.add(p)
+                s.add(a != b)
+                return s.check() == z3.unsat
+            ok_ = attempt(False) or attempt(True)
+            if os.environ.get('PYVC_DEBUG'):
+                print('[link]', other['idx'], ent['idx'], ok_, str(a)[:120].replace(chr(10),' '), '|', str(b)[:120].replace(chr(10),' '), file=__import__('sys').stderr)
+            if ok_:
                 st.assume(other["fn"](arr, n) == ent["fn"](arr, n))
                 if "filt" in other and "filt" in ent:
                     st.assume(other["filt"](arr, n) == ent["filt"](arr, n))
@@ -1199,10 +1216,13 @@ class Builtins:
         s = comp.state
         x = z3.Const("ax!", sort_of(comp.src_elem))
         xv = eng.wrap(s, x, comp.src_elem)
+        mark = len(s.pc)
         if which == "pred":
             t = comp.pred_fn(s, xv) if comp.pred_fn is not None else z3.BoolVal(True)
         else:
             t = eng.as_int(comp.map_fn(s, xv)) if comp.map_fn is not None else x
+        self._last_side = [p for p in s.pc[mark:] if "ax!" in E.term_consts(p)]
+        del s.pc[mark:]
         return x, t
 
     def _class_symbol(self, st, kind, x, t, extra_sort=None):
@@ -1244,6 +1264,13 @@ class Builtins:
     def _sum_entry(self, st, x, t):
         eng = self.eng
         ent = self._class_symbol(st, "sum", x, t)
+        side = getattr(self, "_last_side", None)
+        if side:
+            # heap well-formedness facts about what the predicate reads from an element (used when linking classes)
+            ent.setdefault("side", [])
+            have = {p.get_id() for p in ent["side"]}
+            ent["side"].extend([z3.substitute(p, (x, ent["x"])) for p in side if p.get_id() not in have][:20])
+        self._last_side = None
         if "fn" not in ent:
             asort = z3.ArraySort(z3.IntSort(), x.sort())
             f = z3.Function(f"SUM{ent['idx']}", asort, z3.IntSort(), z3.IntSort())
@@ -1261,8 +1288,11 @@ class Builtins:
         s = state or st
         x = z3.Const("ax!", sort_of(src_elem))
         xv = eng.wrap(s, x, src_elem)
+        mark = len(s.pc)
         t_map = eng.as_int(map_fn(s, xv)) if map_fn is not None else x
         t_pred = pred_fn(s, xv) if pred_fn is not None else z3.BoolVal(True)
+        self._last_side = [p for p in s.pc[mark:] if "ax!" in E.term_consts(p)]
+        del s.pc[mark:]
         ent = self._sum_entry(st, x, z3.simplify(z3.If(t_pred, t_map, 0)))
         self.link_equivalent_classes(st, ent, arr, n, src_elem)
         return ent["fn"](arr, n)
